@@ -106,7 +106,13 @@ def replay(path):
         return 2
     world.reset()
     fam.setup('thorough', None)
-    r = fam.run(_tuplify(body['case']))
+    try:
+        r = fam.run(_tuplify(body['case']))
+    except Exception as e:
+        import traceback
+        from mc.engine import Res
+        r = Res()
+        r.fail('EXC:' + type(e).__name__, traceback.format_exc(limit=6)[-900:])
     codes = [c for c, _ in r.fails]
     print('replay %s family=%s case=%s' % (prop, body['family'], json.dumps(body['case'], default=str)[:300]))
     for c, d in r.fails:
